@@ -102,6 +102,9 @@ type World struct {
 	Crashes   []CrashCopy
 	CrashResults []crashResult
 	Obs       []*Observation
+	CertProbes []CertProbe
+	acme      *acmeFake
+	certSeen  map[string]bool
 	Logs      []map[string]any
 	tids      map[*server.Target]string
 	lbids     map[*server.LoadBalancer]string
@@ -232,6 +235,11 @@ func NewWorld(sc *Scenario, s *Sim, h *History) *World {
 	s.namer = w.nameFor
 	s.onStep = w.onStep
 	w.CrashOn = sc.Params["crash"] != 0
+	w.certSeen = map[string]bool{}
+	if sc.Params["acme"] != 0 {
+		w.acme = &acmeFake{w: w}
+		w.Net.Register("acme.test:80", w.acme)
+	}
 	s.AddSection("snapshot.lock", "snapshot.unlocked")
 	for _, ts := range sc.Targets {
 		w.AddTarget(ts)
@@ -469,6 +477,8 @@ func (w *World) execOp(actor string, idx int, op *Op) {
 	}
 	switch op.Kind {
 	case "sleep":
+	case "certs":
+		w.probeCerts(actor, idx, op)
 	case "observe":
 		rep := w.Sc.Params["obs_repeat"]
 		if rep == 0 {
